@@ -519,7 +519,8 @@ func (o *baseDynamicObject) exportToArrayOrSlice(dst reflect.Value, typ reflect.
 
 func (o *dynamicObject) equal(impl objectImpl) bool {
 	if other, ok := impl.(*dynamicObject); ok {
-		return o.d == other.d
+		// == panics when both are of the same uncomparable type (e.g. a map type that implements DynamicObject)
+		return reflect.ValueOf(o.d).Comparable() && o.d == other.d
 	}
 	return false
 }
